@@ -584,3 +584,67 @@ func writesMapParam(fn *ssa.Function) bool {
 	}
 	return false
 }
+
+// RunBoundsControls runs the linear prover on the ctlBounds* examples of
+// /verif/controls: every ctlBoundsBad* function has a site that can fail at
+// run time and must keep at least one unproven site (a prover that proves it
+// is unsound), every ctlBoundsGood* function must be proven completely (a
+// prover that cannot is too weak to be the one the other numbers were
+// obtained with).
+func RunBoundsControls(r *Report) {
+	r.Rule("provercontrol: the linear prover, run on the must-fail and must-pass examples in /verif/controls/prover.go, leaves every unsafe example unproven and proves every safe one")
+	cw, err := controlWorld(r.verifDir)
+	if err != nil {
+		r.Fail("provercontrol", r.MkKey("provercontrol", "controls", "load"), "-", "cannot load the control package: "+err.Error(), nil)
+		return
+	}
+	var fns []*ssa.Function
+	for _, f := range cw.LibFuncs() {
+		if strings.HasPrefix(f.Name(), "ctlBounds") {
+			fns = append(fns, f)
+		}
+	}
+	sort.Slice(fns, func(i, j int) bool { return fnName(fns[i]) < fnName(fns[j]) })
+	br := newBoundsRun(cw)
+	var results map[*ssa.Function][]siteResult
+	func() {
+		defer func() {
+			if x := recover(); x != nil {
+				r.Fatal("prover panic on the control package: %v", x)
+			}
+		}()
+		results = br.analyse(fns)
+	}()
+	nBad, nGood := 0, 0
+	for _, fn := range fns {
+		unproven := 0
+		var first string
+		for _, res := range results[fn] {
+			if !res.ok {
+				unproven++
+				if first == "" {
+					first = cw.Pos(res.site.ins.Pos()) + " " + res.site.descr
+				}
+			}
+		}
+		key := r.MkKey("provercontrol", fn.Name(), "verdict")
+		switch {
+		case strings.HasPrefix(fn.Name(), "ctlBoundsBad"):
+			nBad++
+			if unproven > 0 {
+				r.OK("provercontrol", key, cw.Pos(fn.Pos()), fmt.Sprintf("%d site(s) left unproven, as they must be", unproven))
+			} else {
+				r.Fail("provercontrol", key, cw.Pos(fn.Pos()), "the prover shows every site of this example in range although one of them fails at run time for some input: the prover is unsound and nothing it discharges can be believed", nil)
+			}
+		case strings.HasPrefix(fn.Name(), "ctlBoundsGood"):
+			nGood++
+			if unproven == 0 {
+				r.OK("provercontrol", key, cw.Pos(fn.Pos()), fmt.Sprintf("all %d sites proven", len(results[fn])))
+			} else {
+				r.Fail("provercontrol", key, cw.Pos(fn.Pos()), "the prover cannot show this safe example in range ("+first+")", nil)
+			}
+		}
+	}
+	r.Floor("provercontrol", 25)
+	_, _ = nBad, nGood
+}
